@@ -85,8 +85,8 @@ theorem abort_erases_store_fresh (cat : Catalog) (ops : List Op) (tid : Nat) (t 
 
 /-- the general history-level statement: the operations of ONE transaction that does not commit (from its `begin`
     to its rollback / drop) replaced by `nop` give every other operation the same output, also those of later —
-    possibly committing — transactions of the same session.  Proved below (`abort_erases`); a transaction whose commit is
-    REFUSED is not covered by this statement; `failed_statement_erases` covers a single failing statement of a
+    possibly committing — transactions of the same session.  Proved below (`abort_erases`); `abort_erases_refused`
+    extends it to a transaction whose commit is REFUSED, `failed_statement_erases` to a single failing statement of a
     transaction that goes on. -/
 def abort_erases_statement : Prop :=
   ∀ (cat : Catalog) (pre seg post : List Op) (s : String),
@@ -113,6 +113,34 @@ theorem abort_erases : abort_erases_statement := by
     (reach_rel cat (pre ++ seg)).sessNone s hseg
   rw [Spec.final_append] at hs
   obtain ⟨e1, e2⟩ := spec_erase_from s seg (Spec.final (Spec.State.init cat) pre) hnc
+  rw [dropSess_absent s _ hp] at e1 e2
+  rw [dropSess_absent s _ hs] at e1
+  rw [refine_run, refine_run, refine_run, refine_run, spec_run_outs, spec_run_outs, spec_run_outs, spec_run_outs]
+  rw [Spec.outs_append, Spec.outs_append, Spec.final_append, e1, e2]
+  rw [Spec.outs_append pre seg, drop_outs_left]
+  rw [Spec.outs_append (pre ++ seg) post, Spec.outs_append pre seg, Spec.final_append]
+  have hlen : pre.length + seg.length = (Spec.outs (Spec.State.init cat) pre ++
+      Spec.outs (Spec.final (Spec.State.init cat) pre) seg).length := by
+    simp [Spec.outs_length]
+  rw [hlen, List.drop_left]
+
+/-- **Abort erases, refused commits included.**  As `abort_erases`, but `seg` may contain commits of `s` as long as none
+    of them was answered with `ok`: a transaction whose COMMIT is refused (write-write conflict, or the constraint
+    re-check) is erased like one that rolls back — every other operation of the history, before, inside and after
+    `seg`, answers the same when the operations of `s` in `seg` (the refused `commit` included) are replaced by `nop`. -/
+theorem abort_erases_refused (cat : Catalog) (pre seg post : List Op) (s : String)
+    (hpre : lookup s (finalM Defects.none (State.init cat) pre).sessions = none)
+    (hnc : noCommitOk s seg ((run Defects.none cat (pre ++ seg)).2.drop pre.length) = true)
+    (hseg : lookup s (finalM Defects.none (State.init cat) (pre ++ seg)).sessions = none) :
+    (run Defects.none cat (pre ++ eraseSess s seg ++ post)).2 =
+      (run Defects.none cat pre).2 ++ maskOuts s seg ((run Defects.none cat (pre ++ seg)).2.drop pre.length) ++
+        ((run Defects.none cat (pre ++ seg ++ post)).2.drop (pre.length + seg.length)) := by
+  have hp : lookup s (Spec.final (Spec.State.init cat) pre).sessions = none := (reach_rel cat pre).sessNone s hpre
+  have hs : lookup s (Spec.final (Spec.State.init cat) (pre ++ seg)).sessions = none :=
+    (reach_rel cat (pre ++ seg)).sessNone s hseg
+  rw [Spec.final_append] at hs
+  rw [refine_run, spec_run_outs, Spec.outs_append, drop_outs_left] at hnc
+  obtain ⟨e1, e2⟩ := spec_erase_from' s seg (Spec.final (Spec.State.init cat) pre) hnc
   rw [dropSess_absent s _ hp] at e1 e2
   rw [dropSess_absent s _ hs] at e1
   rw [refine_run, refine_run, refine_run, refine_run, spec_run_outs, spec_run_outs, spec_run_outs, spec_run_outs]
